@@ -19,15 +19,15 @@ import (
 )
 
 type accShape struct {
-	name  string
-	decl  string   // WGSL type of the container
-	n     int      // number of directly indexable elements
-	inner int      // components per element (1 = scalar element)
-	elem  string   // "u32" | "i32" | "f32"
-	pre   string   // extra declarations (struct)
-	path  string   // access path prefix after the variable name (e.g. ".a")
-	init  func() string
-	total int // number of scalar leaves in the container
+	name     string
+	decl     string // WGSL type of the container
+	n        int    // number of directly indexable elements
+	inner    int    // components per element (1 = scalar element)
+	elem     string // "u32" | "i32" | "f32"
+	pre      string // extra declarations (struct)
+	path     string // access path prefix after the variable name (e.g. ".a")
+	init     func() string
+	total    int  // number of scalar leaves in the container
 	innerArr bool // the elements are arrays (not vectors): only scalar-leaf access kinds apply
 }
 
@@ -124,6 +124,11 @@ type accKind struct {
 var accKinds = []string{"load", "store", "opassign", "ptrarg", "loadcomp", "loaddiag", "storediag"}
 var accSpaces = []string{"function", "private"}
 
+// executed sweep only (cmdCAccess): the container as a `let` value (loads only), and a load written directly as the value
+// of a store into the output buffer (`outp[0] = c[i];` — the stored value sits inside the store's own guard)
+var accKindsExec = append(append([]string{}, accKinds...), "loaddirect")
+var accSpacesExec = append(append([]string{}, accSpaces...), "value")
+
 func toWordExpr(elem, e string) string {
 	if elem == "u32" {
 		return e
@@ -132,6 +137,9 @@ func toWordExpr(elem, e string) string {
 }
 
 // accProgram builds the WGSL text; idxSigned: index is i32.
+// accLitIdx != nil: accProgram indexes with a `let` bound to this literal instead of a value read from the input buffer.
+var accLitIdx *uint32
+
 func accProgram(s accShape, space, kind string, idxSigned bool) (string, bool) {
 	var b strings.Builder
 	b.WriteString("@group(0) @binding(0) var<storage, read> inp: array<u32>;\n@group(0) @binding(1) var<storage, read_write> outp: array<u32>;\n")
@@ -152,21 +160,42 @@ func accProgram(s accShape, space, kind string, idxSigned bool) (string, bool) {
 		}
 		fmt.Fprintf(&b, "fn bump(p: ptr<%s, %s>) {\n  (*p) = (*p) + %s;\n}\n", space, elemTy, accDelta(s))
 	}
+	if space == "value" && !(kind == "load" || kind == "loadcomp" || kind == "loaddiag" || kind == "loaddirect") {
+		return "", false // a `let` value can only be read
+	}
+	if kind == "loaddirect" && s.inner != 1 {
+		return "", false
+	}
 	if space == "private" {
 		fmt.Fprintf(&b, "var<private> c: %s;\n", s.decl)
 	}
 	b.WriteString("@compute @workgroup_size(1)\nfn main() {\n")
-	if space == "function" {
+	switch space {
+	case "function":
 		fmt.Fprintf(&b, "  var c: %s = %s;\n", s.decl, s.init())
-	} else {
+	case "value":
+		fmt.Fprintf(&b, "  let c: %s = %s;\n", s.decl, s.init())
+	default:
 		fmt.Fprintf(&b, "  c = %s;\n", s.init())
 	}
 	idx := "inp[31u]"
 	if idxSigned {
 		idx = "bitcast<i32>(inp[31u])"
 	}
+	if accLitIdx != nil {
+		// the index is a `let` bound to a literal: a run-time value for WGSL (out of range is not a shader-creation error),
+		// but a constant for the writers
+		if idxSigned {
+			fmt.Fprintf(&b, "  let ixl = %di;\n", int32(*accLitIdx))
+		} else {
+			fmt.Fprintf(&b, "  let ixl = %du;\n", *accLitIdx)
+		}
+		idx = "ixl"
+	}
 	place := fmt.Sprintf("c%s[%s]", s.path, idx)
 	switch kind {
+	case "loaddirect":
+		fmt.Fprintf(&b, "  outp[0u] = %s;\n", toWordExpr(s.elem, place))
 	case "load":
 		fmt.Fprintf(&b, "  let x = %s;\n", place)
 		for j := 0; j < s.inner; j++ {
@@ -296,7 +325,7 @@ func accExpected(s accShape, kind string, inp, outp []uint32, idx uint32, signed
 		}
 	}
 	switch kind {
-	case "load":
+	case "load", "loaddirect":
 		for j := 0; j < s.inner; j++ {
 			if skip {
 				exp[j] = 0
@@ -345,86 +374,108 @@ func cmdCAccess(c *ctx) {
 	}
 	hostileIdx := []uint32{0xffffffff, 0x80000000, 0x7fffffff, 5, 6, 16, 17, 1000, 0x10000, 0xfffffffe}
 	for _, s := range accShapes() {
-		for _, space := range accSpaces {
-			for _, kind := range accKinds {
+		for _, space := range accSpacesExec {
+			for _, kind := range accKindsExec {
 				for _, signed := range []bool{false, true} {
-					src, ok := accProgram(s, space, kind, signed)
-					if !ok {
-						continue
-					}
-					mod, res := frontEnd(src)
-					if mod == nil {
-						c.count("rejected")
-						c.line("rejected.txt", q(fmt.Sprint(res))+" "+q(src))
-						continue
-					}
-					for _, os := range sets {
-						if hostile && os.policy == "" {
-							continue // no protective option selected: nothing is promised
+					// variant 0: index read from the input buffer; variants 1…: the index is a literal bound by `let` (hostile runs only)
+					var litIdxs []uint32
+					if hostile {
+						litIdxs = []uint32{uint32(s.n), 0xffffffff, 0x80000000}
+						if signed {
+							litIdxs = []uint32{uint32(s.n), 0xffffffff, 0x80000000, 0x7fffffff}
 						}
-						text, _, cerr := emitCFixed(dialect, mod, os.tag)
-						if cerr != "" {
-							c.count("backend-error")
-							c.line("backend-errors.txt", q(cerr)+" "+q(src))
+					}
+					for variant := 0; variant <= len(litIdxs); variant++ {
+						accLitIdx = nil
+						if variant > 0 {
+							v := litIdxs[variant-1]
+							accLitIdx = &v
+						}
+						src, ok := accProgram(s, space, kind, signed)
+						lit := accLitIdx
+						accLitIdx = nil
+						if !ok {
 							continue
 						}
-						unit, nfix, perr := cparseN(text)
-						if perr != nil {
-							c.count("cparse-error")
-							c.line("cparse-errors.txt", q(perr.Error())+" "+q(text))
+						mod, res := frontEnd(src)
+						if mod == nil {
+							c.count("rejected")
+							c.line("rejected.txt", q(fmt.Sprint(res))+" "+q(src))
 							continue
 						}
-						if nfix > 0 {
-							c.count("prefix-array-declarator")
-							if c.stats["prefix-array-declarator"] == 1 {
-								c.line("prefix-array.txt", q(text))
+						for _, os := range sets {
+							if hostile && os.policy == "" {
+								continue // no protective option selected: nothing is promised
 							}
-						}
-						var idxs []uint32
-						if hostile {
-							idxs = append(idxs, uint32(s.n), uint32(s.n)+1, uint32(s.inner), uint32(s.inner)+1)
-							if s.inner > 1 && s.n != s.inner {
-								lo, hi := s.n, s.inner
-								if lo > hi {
-									lo, hi = hi, lo
+							text, _, cerr := emitCFixed(dialect, mod, os.tag)
+							if cerr != "" {
+								c.count("backend-error")
+								c.line("backend-errors.txt", q(cerr)+" "+q(src))
+								continue
+							}
+							unit, nfix, perr := cparseN(text)
+							if perr != nil {
+								c.count("cparse-error")
+								c.line("cparse-errors.txt", q(perr.Error())+" "+q(text))
+								continue
+							}
+							if nfix > 0 {
+								c.count("prefix-array-declarator")
+								if c.stats["prefix-array-declarator"] == 1 {
+									c.line("prefix-array.txt", q(text))
 								}
-								idxs = append(idxs, uint32(lo+(hi-lo)/2))
 							}
-							for k := 0; k < 3; k++ {
-								idxs = append(idxs, hostileIdx[c.rng.Intn(len(hostileIdx))])
+							var idxs []uint32
+							if lit != nil {
+								idxs = []uint32{*lit}
+							} else if hostile {
+								idxs = append(idxs, uint32(s.n), uint32(s.n)+1, uint32(s.inner), uint32(s.inner)+1)
+								if s.inner > 1 && s.n != s.inner {
+									lo, hi := s.n, s.inner
+									if lo > hi {
+										lo, hi = hi, lo
+									}
+									idxs = append(idxs, uint32(lo+(hi-lo)/2))
+								}
+								for k := 0; k < 3; k++ {
+									idxs = append(idxs, hostileIdx[c.rng.Intn(len(hostileIdx))])
+								}
+								idxs = append(idxs, c.rng.Uint32())
+							} else {
+								lim := s.n
+								if (kind == "loaddiag" || kind == "storediag") && s.inner < lim {
+									lim = s.inner
+								}
+								for i := 0; i < lim; i++ {
+									idxs = append(idxs, uint32(i))
+								}
 							}
-							idxs = append(idxs, c.rng.Uint32())
-						} else {
-							lim := s.n
-							if (kind == "loaddiag" || kind == "storediag") && s.inner < lim {
-								lim = s.inner
+							for _, idx := range idxs {
+								if signed && !hostile && idx > 0x7fffffff {
+									continue
+								}
+								inp, outp := c.inputWords(32), c.inputWords(48)
+								inp[31] = idx
+								exp := accExpected(s, kind, inp, outp, idx, signed, os.policy)
+								if exp == nil {
+									continue
+								}
+								c.line("cases.txt", fmt.Sprintf("(crun %s (unit %s) (inputs %s %s))", dialect, unit, wordsSexp(0, inp), wordsSexp(1, outp)))
+								parts := make([]string, len(exp))
+								for i, w := range exp {
+									parts[i] = fmt.Sprint(w)
+								}
+								c.line("expected.txt", "["+strings.Join(parts, ", ")+"]")
+								c.line("src.txt", q(src))
+								c.line("text.txt", q(text))
+								c.line("tags.txt", fmt.Sprintf("access:%s:%s:%s:%s idx=%d signed=%v policy=%s literal=%v | %s", s.name, space, kind, map[bool]string{true: "hostile", false: "inrange"}[hostile], idx, signed, os.policy, lit != nil, os.tag))
+								c.count("access-cases")
+								if lit != nil {
+									c.count("literal-index-cases")
+								}
+								c.count("shape:" + s.name)
+								c.count("kind:" + kind)
 							}
-							for i := 0; i < lim; i++ {
-								idxs = append(idxs, uint32(i))
-							}
-						}
-						for _, idx := range idxs {
-							if signed && !hostile && idx > 0x7fffffff {
-								continue
-							}
-							inp, outp := c.inputWords(32), c.inputWords(48)
-							inp[31] = idx
-							exp := accExpected(s, kind, inp, outp, idx, signed, os.policy)
-							if exp == nil {
-								continue
-							}
-							c.line("cases.txt", fmt.Sprintf("(crun %s (unit %s) (inputs %s %s))", dialect, unit, wordsSexp(0, inp), wordsSexp(1, outp)))
-							parts := make([]string, len(exp))
-							for i, w := range exp {
-								parts[i] = fmt.Sprint(w)
-							}
-							c.line("expected.txt", "["+strings.Join(parts, ", ")+"]")
-							c.line("src.txt", q(src))
-							c.line("text.txt", q(text))
-							c.line("tags.txt", fmt.Sprintf("access:%s:%s:%s:%s idx=%d signed=%v policy=%s | %s", s.name, space, kind, map[bool]string{true: "hostile", false: "inrange"}[hostile], idx, signed, os.policy, os.tag))
-							c.count("access-cases")
-							c.count("shape:" + s.name)
-							c.count("kind:" + kind)
 						}
 					}
 				}
